@@ -629,6 +629,10 @@ func ctrlUnits(o Options) []*Unit {
 	var out []*Unit
 	for _, p := range order {
 		idxs := byPart[p]
+		group := group
+		if strings.HasPrefix(p, "!") {
+			group = 1 // a partition the check expects to be refused: one nest per module
+		}
 		for at := 0; at < len(idxs); at += group {
 			chunk := idxs[at:min(at+group, len(idxs))]
 			u := newUnit("ctrl", fmt.Sprintf("%s%d-%d", p, chunk[0], chunk[len(chunk)-1]))
